@@ -71,6 +71,16 @@ T.update({
  'C09-c': ('C09', 'src/is_special_domain.c: counting loop uses memchr over at most 63 bytes', 'a reserved suffix preceded by a label of exactly 63 bytes'),
  'C16-c': ('C16', 'src/is_5321_email.c (EAV_EXTRA): lpart copied with length ch - email', 'EAV_EXTRA build, mode 5321, accepted tagged IPv6 literal: lpart = "user@[IPv6"'),
 })
+T.update({
+ 'C03-c': ('C03', 'src/utf8_decode.c: surrogate upper limit written as 0xDBFF (low surrogates accepted)', 'mode 6531, a local part containing ED B0..BF xx'),
+ 'C04-d': ('C04', 'partial/idn2/is_utf8_domain.c: one root dot cut off the converted name before is_ascii_domain (which strips one itself)', 'mode 6531, a domain ending in exactly two dots'),
+ 'C08-c': ('C08', 'partial/idn2/eav.c: eav_is_email returns NO at once when errcode == EEAV_INVALID_RFC', 'history: a failed eav_setup, then a successful one, then any valid address'),
+ 'C12-c': ('C12', 'src/is_5322_local.c: the two dot tests swapped', 'mode 5322, a local part starting with two dots: code 11 instead of 12, decision unchanged'),
+ 'C13-c': ('C13', 'partial/idn2/eav.c eav_setup: frees the result after an IDN error when leaving 6531 but does not clear the pointer', 'history: 6531, an IDN-error result, eav_setup to an ASCII mode, then any call (double free)'),
+ 'C15-c': ('C15', 'include/eav/private_email.h check_ip: bre == NULL and trailing-text tests merged, both report BRACKET_UNPAIR', 'an address literal with paired brackets followed by more text'),
+ 'C18-c': ('C18', 'partial/idn/eav.c: GENERIC_RESTRICTED tested against the GENERIC bit (libidn back end only)', 'libidn build, allow_tld with exactly one of the two bits, TLD biz/name/pro'),
+ 'C19-c': ('C19', 'partial/idn2/is_utf8_domain.c: conversion failure detected by domain == NULL instead of the return code', 'an IDN failure that arrives together with an output buffer: treated as success'),
+})
 for sid, (prop, change, needs) in T.items():
     d = os.path.join(S, sid)
     if not os.path.isdir(d):
